@@ -367,7 +367,7 @@ def shapes_for(tier, rng):
 def run(tier, seed):
     rng = random.Random(seed)
     shapes = shapes_for(tier, rng)
-    nseq, seqlen = (60, 4) if tier == "quick" else (600, 4)
+    nseq, seqlen = (60, 4) if tier == "quick" else (360, 4)
     col = Collector()
     stats = {}
     with PackageDir():
